@@ -1,6 +1,9 @@
 """Per-property legs (model configurations, workloads + trace specifications, replay legs)."""
 
+import legs
+
 CT = {"tspec": "ChmuxTrace.tla", "tcfg": "ChmuxTrace.cfg"}
+PT = {"tspec": "ChmuxPeerTrace.tla", "tcfg": "ChmuxPeerTrace.cfg"}
 
 
 def data_leg(name, n, opts=None, require=None, nontrivial=None):
@@ -130,6 +133,34 @@ CHECKS = {
                  nontrivial=[r'"b":\[3\]'], quick_only=True),
             dict(CT, kind="trace", name="idle_long", workload="idle", n=(12, 40), opts={"periods": 1000}, require={r'"b":\[3\]': 100},
                  nontrivial=[r'"b":\[3\]'], thorough_only=True),
+        ],
+    },
+    "C08": {
+        "rule": "scripted peer against a real endpoint with passive local users: (a) seeded grammar of conforming and hostile frames "
+                "(all message kinds, known/unknown/half-closed ports, lengths 0/1/chunk/chunk+1, credits 1 and 2^32-1, duplicates, truncated and "
+                "unknown frames), (b) every behaviour TLC generates from ChmuxPeerGen up to the depth bound; the verdict of ChmuxPeer!Handle "
+                "is compared with what the endpoint does; non-trivial = the behaviour reaches a terminal verdict after at least one accepted frame",
+        "assumptions": ["local users are passive during the scripted phase (nothing consumed/accepted/dropped), which makes the verdict a function of the frame history"],
+        "legs": [
+            model("ChmuxPeer_MC.cfg", spec="ChmuxPeerMCc.tla", min_states=1000),
+            model("ChmuxPeer_Cov.cfg", spec="ChmuxPeerMCc.tla", expect_violation="NeverFullBuffer"),
+            dict(PT, kind="trace", name="peer_hostile", workload="peer", n=(400, 6000), opts={"hostile": 1},
+                 require={r'"res":"protocol"': 100, r'"res":"reset"': 3, r'"running":true': 20}, nontrivial=[r'"ev":"run_end"', r'"b":\[5,']),
+            dict(PT, kind="custom", fn=legs.gen_replay, name="peer_replay", gen_spec="ChmuxPeerGen.tla", gen_cfg="ChmuxPeerGen.cfg",
+                 depth=(3, 4), limit=(2500, 40000), workload="peer_script", nontrivial=[r'"ev":"run_end"']),
+        ],
+    },
+    "C09": {
+        "rule": "(a) complete case table generated by TLC from WireGen.tla (every kind x flag combination x boundary values, truncations, "
+                "trailing bytes, unknown codes, invalid configurations) against remoc's encoder and decoder; (b) every frame a real endpoint emits "
+                "towards a version-2 or version-3 scripted peer and towards a real peer is decoded by Wire!Dec, must be canonical, carry ids iff the "
+                "peer announced version >= 3, and the Hello must carry the configured values; non-trivial = distinct (vector type, kind)",
+        "assumptions": ["hook H3 re-exports remoc's private codec unchanged"],
+        "legs": [
+            dict(kind="custom", fn=legs.wire_vectors, name="wire_vectors"),
+            dict(PT, kind="trace", name="peer_versions", workload="peer", n=(200, 3000), opts={"hostile": 0},
+                 require={r'"version":2': 20, r'"b":\[4,': 50}, nontrivial=[r'"b":\[4,']),
+            data_leg("data_frames", (60, 1500), {"cancel": 0, "ports": 1}, require={r'"b":\[8,': 20}, nontrivial=[r'"b":\[8,']),
         ],
     },
 }
